@@ -521,8 +521,19 @@ def sec_constant(rec, patches=None):
         rec.fact(f"constant[{kind}]/finite-shift-and-score", not ok, key=f"C05/finite-score[{kind}]", detail=det, reproduced=True)
 
 
+def sec_chain_weights(rec, patches=None):
+    """the weights applied inside the chain before the images are correlated: the missing-wedge mask of a tilted molecule in a non-cubic box (executed by C08's mask section)
+    and the backend's Butterworth low-pass weights on odd / non-cubic boxes (executed by C16's weights section) -- a score is 'the correlation of the filtered images' only with these"""
+    from fractions import Fraction as F_
+    from .c08 import sec_mask
+    from .c16 import sec_weights
+
+    sec_mask(rec, shapes=[(2, 3, 4)], quats=[(F_(1, 2), F_(1, 2), F_(1, 2), F_(1, 2))], axis="y", entry="model", patches=patches)
+    sec_weights(rec, shapes=[(3, 2, 5)], orders=(1, 2), patches=patches)
+
+
 def sections(tier):
-    S = [("chain", "checks.c07", "sec_chain", {}), ("cutoff", "checks.c07", "sec_cutoff", {}), ("landscape-upsampled-multi", "checks.c07", "sec_landscape_upsampled", {})]
+    S = [("chain", "checks.c07", "sec_chain", {}), ("chain-weights", "checks.c07", "sec_chain_weights", {}), ("cutoff", "checks.c07", "sec_cutoff", {}), ("landscape-upsampled-multi", "checks.c07", "sec_landscape_upsampled", {})]
     shapes = [(1, 1, 2), (1, 2, 2), (1, 1, 3)] if quick(tier) else [(1, 1, 2), (1, 2, 2), (1, 1, 3), (2, 2, 2), (1, 2, 3), (2, 2, 3)]
     for shp in shapes:
         S.append((f"formulas-{shp}", "checks.c07", "sec_formulas", {"shape": shp}))
